@@ -17,11 +17,34 @@ def find_expr(fn, pick):
     return node, ast.unparse(node)
 
 
+def _inline_locals(tree, node, depth=0):
+    """replace local names that are assigned exactly once (a plain `name = <expr>` statement) by their defining expression:
+    `n = ceil(h / dt) + 1; f(n_steps=n)` is read as `f(n_steps=ceil(h / dt) + 1)`.  Names assigned more than once are left alone."""
+    if depth > 4:
+        return node
+    assigns = {}
+    for n in ast.walk(tree):
+        if isinstance(n, ast.Assign) and len(n.targets) == 1 and isinstance(n.targets[0], ast.Name):
+            assigns.setdefault(n.targets[0].id, []).append(n.value)
+        elif isinstance(n, (ast.AugAssign, ast.AnnAssign)) and isinstance(n.target, ast.Name):
+            assigns.setdefault(n.target.id, []).append(None)
+        elif isinstance(n, (ast.For,)) and isinstance(n.target, ast.Name):
+            assigns.setdefault(n.target.id, []).append(None)
+
+    class Inl(ast.NodeTransformer):
+        def visit_Name(self, nd):
+            vals = assigns.get(nd.id)
+            if isinstance(nd.ctx, ast.Load) and vals and len(vals) == 1 and vals[0] is not None:
+                return _inline_locals(tree, ast.parse(ast.unparse(vals[0]), mode='eval').body, depth + 1)
+            return nd
+    return ast.fix_missing_locations(Inl().visit(ast.parse(ast.unparse(node), mode='eval').body))
+
+
 def kwarg_expr(name):
     def pick(tree):
         for n in ast.walk(tree):
             if isinstance(n, ast.keyword) and n.arg == name:
-                return n.value
+                return _inline_locals(tree, n.value)
         return None
     return pick
 
